@@ -2,6 +2,8 @@ use crate::engine::Ctx;
 
 pub mod c01;
 pub mod c02;
+pub mod c03;
+pub mod c05;
 
 pub fn run(ctx: &mut Ctx) {
     // corpus replay tier first
@@ -9,6 +11,8 @@ pub fn run(ctx: &mut Ctx) {
     match ctx.id.as_str() {
         "C01" => c01::run_check(ctx),
         "C02" => c02::run_check(ctx),
+        "C03" => c03::run_check(ctx),
+        "C05" => c05::run_check(ctx),
         other => {
             eprintln!("unknown property {}", other);
             std::process::exit(2);
@@ -20,6 +24,8 @@ pub fn replay(ctx: &mut Ctx, case: &serde_json::Value) {
     match ctx.id.as_str() {
         "C01" => c01::replay(ctx, case),
         "C02" => c02::replay(ctx, case),
+        "C03" => c03::replay(ctx, case),
+        "C05" => c05::replay(ctx, case),
         other => {
             eprintln!("unknown property {}", other);
             std::process::exit(2);
